@@ -143,6 +143,8 @@ def get_config(config_file):
     # update environments with [env] section
     if 'env' in cfg.sections():
         local_env.update(dict(cfg.items('env')))
+        # (the parser's own section marker is no environment variable)
+        local_env.pop('__name__', None)
         global_env.update(local_env)
 
     # always set the cfg environment
@@ -304,6 +306,7 @@ def get_config(config_file):
             section_elements = section.split("env:", 1)[1]
             watcher_patterns = [s.strip() for s in section_elements.split(',')]
             env_items = dict(cfg.items(section, noreplace=True))
+            env_items.pop('__name__', None)
 
             for pattern in watcher_patterns:
                 match = [w for w in watchers if fnmatch(w['name'], pattern)]
